@@ -132,6 +132,7 @@ func c16(c *Ctx) {
 
 	// ---- export ----
 	c.captureFamily("litefs.(*DB).Export", true)
+	c.walCacheFamily("wal-cache")
 	ex := "litefs.(*DB).Export"
 	wr := p.Calls("io.Writer.Write")
 	c.ExpectAll("export/writes-page-buffer", c.CallArgs(ex, wr, 1), pat("make([]byte, p0.pageSize)"), 1, "Export writes the page buffer (one page of the captured page size)", "")
